@@ -3,6 +3,7 @@ Registry of driver commands.  Each property contributes `FeVerif/Driver/<X>.lean
 `dispatch<X> : String → List String → Option String` (command word, space-separated arguments).
 -/
 import FeVerif.Driver.Frame
+import FeVerif.Driver.CxxFramer
 import FeVerif.Driver.Indexer
 import FeVerif.Driver.FileIndex
 import FeVerif.Driver.Reader
@@ -21,7 +22,7 @@ import FeVerif.Driver.TimeRange
 namespace FeVerif
 
 def dispatchers : List (String → List String → Option String) :=
-  [dispatchFrame, dispatchIndexer, dispatchFileIndex, dispatchReader, dispatchExtract, dispatchAngle, dispatchDataVersion, dispatchAlign, dispatchNumpy, dispatchC02, dispatchRtcm, dispatchCrc, dispatchLoader, dispatchLayout, dispatchTimeRange]
+  [dispatchFrame, dispatchCxxFramer, dispatchIndexer, dispatchFileIndex, dispatchReader, dispatchExtract, dispatchAngle, dispatchDataVersion, dispatchAlign, dispatchNumpy, dispatchC02, dispatchRtcm, dispatchCrc, dispatchLoader, dispatchLayout, dispatchTimeRange]
 
 def dispatch (line : String) : String :=
   match line.splitOn " " with
